@@ -269,9 +269,11 @@ THRESHOLDS = {
 }
 
 
-PARTITION_CALLS = ('::chunks', '::chunks_exact', '::chunks_mut', '::chunks_exact_mut', '::rchunks', '::rchunks_exact', '::windows', '::split_at', '::split_at_mut',
+PARTITION_CALLS = ('::chunks', '::chunks_exact', '::chunks_mut', '::chunks_exact_mut', '::rchunks', '::rchunks_exact', '::split_at', '::split_at_mut',
                    '::split_at_checked', 'Iterator::take', 'Iterator::skip', 'Iterator::step_by', 'Ord::min', 'Ord::max', 'cmp::min', 'cmp::max', '::truncate',
                    '::split_off', '::resize', '::array_chunks', '::first_chunk', '::split_first_chunk', '::last_chunk', '::split_last_chunk')
+# (`windows(k)` is not a partition: the sliding window visits every run of k neighbours of a list of any length, and a predicate over neighbours is
+# vacuous for shorter lists - the same code for all sizes)
 PARTITIONS = {
     # (owner, callee, size): reason - none on the pinned tree: the only constant-size partitions are 32-byte scalar framings of octet strings
 }
